@@ -68,12 +68,12 @@ class TreeSet:
             for i in range(1, len(parts)):
                 a = "/".join(parts[:i])
                 t = self.model.natural(a)
-                if t is not None and t.name in pm.templates:
-                    # the ancestor's folder really is an ancestor folder of the entity's path
-                    pa = pm.render(t.name, t.fields(a))
-                    pe, _ = self.path_of(c, e)
-                    if pa and pe and (pe == pa or pe.startswith(pa + "/")):
-                        res.add(a)
+                te = self.model.natural(e)
+                if (t is not None and te is not None and t.keys == te.keys[:len(t.keys)]          # a real ancestor level (same keys)
+                        and t.name in pm.templates and pm.render(t.name, t.fields(a))):
+                    # C15: "an entity exists together with all its ancestors that have a path" - whether the configured
+                    # templates really nest is part of what is checked, not assumed
+                    res.add(a)
         return res
 
     def plant_junk(self, rng, ents, configs=None):
